@@ -63,5 +63,5 @@ StateRange == st \in 0..11
 Accepted ==
   LET d == TLCGet("stats").diameter IN
   IF d - 1 = Len(Rec) THEN PrintT(<<"TRACE-ACCEPTED", Len(Rec)>>)
-  ELSE PrintT(<<"TRACE-REJECTED at line", d, Rec[d], "state", st, rep, outlen>>) /\ FALSE
+  ELSE PrintT(<<"TRACE-REJECTED at line", d, Rec[d]>>) /\ FALSE
 ====
